@@ -128,7 +128,8 @@ def _structure(
             # l1: List[Node]
             # fi: FunctionInteractions
             # If it is a context-independent function, add it to the list of potential implicit dependencies
-            if len(fi.arg_input.named_args) == 0:
+            # (its arguments, if any, are all known at introspection time: constants or defaults)
+            if all(sig is not None for sig in fi.arg_input.named_args.values()):
                 start_nodes += l1
             # Otherwise, there is an implicit dep: introduce a single dep here
             else:
